@@ -32,8 +32,9 @@ CfgsPut ==
           top     : {TopOn("V1", x) : x \in TopStates} \cup {TopOn("R", "sticky"), TopOn("V2", "sticky")},
           altfile : {{}, {"V1"}, {"R"}},
           xdg     : {"set", "unset", "empty"},
-          home    : {"set", "unset"},
+          home    : {"set", "unset"}, hlink : {"none", "V1"},
           kind    : {StdKind}] :
+     /\ (c.hlink # "none" => c.xdg = "set" /\ c.home = "set")
      /\ (c.top["V2"] # "absent" => "V2" \in c.mounted)
      /\ (c.home = "unset" => c.xdg # "empty")}
 
@@ -69,7 +70,7 @@ CfgsBusy ==
           top     : {TopOn("V1", x) : x \in {"absent", "sticky"}},
           altfile : {{}},
           xdg     : {"set", "unset"},
-          home    : {"set"},
+          home    : {"set"}, hlink : {"none"},
           kind    : {StdKind}] : TRUE}
 LiveBusy == {[r |-> "R", d |-> "d", n |-> "a", o |-> 1], [r |-> "V1", d |-> "top", n |-> "a", o |-> 2],
              [r |-> "V1", d |-> "d", n |-> "a", o |-> 3], [r |-> "R", d |-> "top", n |-> "b", o |-> 4]}
@@ -95,7 +96,7 @@ Next_PutBusy == \E a \in ArgsBusy, o \in OptsBusy : Put(<<a>>, o) /\ Emit
 (* C06: trash-restore onto destinations that are occupied                          *)
 
 KindsFDLX == [o \in Objs |-> CASE o % 4 = 1 -> "file" [] o % 4 = 2 -> "dir" [] o % 4 = 3 -> "link" [] OTHER -> "dlink"]
-CfgsPlain == {[mounted |-> m, top |-> TopOn("V1", x), altfile |-> {}, xdg |-> "set", home |-> "set", kind |-> KindsFDLX] :
+CfgsPlain == {[mounted |-> m, top |-> TopOn("V1", x), altfile |-> {}, xdg |-> "set", home |-> "set", hlink |-> "none", kind |-> KindsFDLX] :
                  m \in {{"R", "V1"}, {"R", "H", "V1"}}, x \in {"absent", "sticky"}}
 \* two trashed entries (kinds vary with the object id) whose destinations are free / occupied by any kind
 Init_Clobber ==
@@ -109,6 +110,23 @@ Init_Clobber ==
                   \cup (IF ob = 0 THEN {} ELSE {[r |-> "V1", d |-> "d", n |-> "b", o |-> 13]})
   /\ tex = {i.t : i \in items} /\ orph = {} /\ strays = {} /\ junk = {}
   /\ clock = 2 /\ purged = {} /\ out = [cmd |-> "init"]
+\* two trashed entries with the SAME original location (trashed one after the other): restoring both in one run must
+\* restore the first selected and refuse the second (its destination is occupied by then)
+Init_ClobberSame ==
+  /\ cfg \in CfgsPlain
+  /\ dirs = BaseDirs
+  /\ \E pa \in 1 .. 4, pb \in 1 .. 4, third \in BOOLEAN :
+       items = {[t |-> "home", o |-> 8 + pa, r |-> "R", d |-> "d", n |-> "a", date |-> 0],
+                [t |-> "home", o |-> 4 + pb, r |-> "R", d |-> "d", n |-> "a", date |-> 1]}
+               \cup (IF third THEN {[t |-> "t2:V1", o |-> 13, r |-> "V1", d |-> "d", n |-> "b", date |-> 2]} ELSE {})
+  /\ live = {}
+  /\ tex = {"home", "t2:V1"} /\ orph = {} /\ strays = {} /\ junk = {}
+  /\ clock = 3 /\ purged = {} /\ out = [cmd |-> "init"]
+Next_ClobberSame ==
+  \E sort \in {"date", "path", "none"}, ow \in BOOLEAN,
+     reply \in {[k |-> "idx", idx |-> <<0, 1>>], [k |-> "idx", idx |-> <<1, 0>>], [k |-> "idx", idx |-> <<0>>], [k |-> "idx", idx |-> <<0, 1, 2>>]} :
+     (\A i \in 1 .. Len(reply.idx) : reply.idx[i] < Cardinality(items)) /\ Restore([k |-> "root"], "none", sort, reply, ow) /\ Emit
+
 Next_Clobber ==
   \E sort \in {"date", "path"}, ow \in BOOLEAN,
      reply \in {[k |-> "idx", idx |-> <<0>>], [k |-> "idx", idx |-> <<1>>], [k |-> "idx", idx |-> <<0, 1>>], [k |-> "idx", idx |-> <<1, 0>>]} :
@@ -118,7 +136,7 @@ Next_Clobber ==
 (* C08: every state of $topdir/.Trash with a populated .Trash/$uid, all five commands *)
 
 CfgsInsecure ==
-  {[mounted |-> m, top |-> TopOn("V1", x), altfile |-> {}, xdg |-> "set", home |-> "set", kind |-> KindsFDLX] :
+  {[mounted |-> m, top |-> TopOn("V1", x), altfile |-> {}, xdg |-> "set", home |-> "set", hlink |-> "none", kind |-> KindsFDLX] :
       m \in {{"R", "V1"}, {"R", "V1", "V2"}}, x \in TopStates \ {"absent", "file"}}
 Init_Insecure ==
   /\ cfg \in CfgsInsecure
@@ -145,7 +163,7 @@ Next_Insecure ==
 -----------------------------------------------------------------------------
 (* C10 / C14: trash-empty around the DAYS threshold; dry run; consent                *)
 
-CfgsEmpty == {[mounted |-> {"R", "V1"}, top |-> TopOn("V1", x), altfile |-> {}, xdg |-> xd, home |-> "set", kind |-> KindsFDLX] :
+CfgsEmpty == {[mounted |-> {"R", "V1"}, top |-> TopOn("V1", x), altfile |-> {}, xdg |-> xd, home |-> "set", hlink |-> "none", kind |-> KindsFDLX] :
                  x \in {"absent", "sticky"}, xd \in {"set", "unset"}}
 \* clock = 10; with DayTicks = 3 a day is 3 ticks: dates around now - days*3 for days in 0..3
 DatePool == IF GenLevel >= 2 THEN {0, 1, 3, 4, 5, 6, 7, 8, 9, 10, 11, 12, NoDate} ELSE {0, 3, 4, 5, 7, 9, 10, 11, NoDate}
@@ -173,7 +191,7 @@ Next_EmptyConsent ==
 (* C12: trash-rm patterns; C13: trash-restore scope, order and index sets             *)
 
 Init_Many ==
-  /\ cfg \in {[mounted |-> m, top |-> TopOn("V1", x), altfile |-> {}, xdg |-> "set", home |-> "set", kind |-> KindsFDLX] :
+  /\ cfg \in {[mounted |-> m, top |-> TopOn("V1", x), altfile |-> {}, xdg |-> "set", home |-> "set", hlink |-> "none", kind |-> KindsFDLX] :
                   m \in {{"R", "V1"}, {"R", "H", "V1"}, {"R", "V1", "V2"}}, x \in {"absent", "sticky"}}
   /\ dirs \in {BaseDirs, TopDirs \cup {[r |-> "R", d |-> "d"]}}
   /\ live = {}
@@ -214,7 +232,7 @@ Next_RestoreSel ==
 (* C19: malformed neighbours                                                           *)
 
 Init_Junk ==
-  /\ cfg \in {[mounted |-> {"R", "V1"}, top |-> TopOn("V1", x), altfile |-> {}, xdg |-> "set", home |-> "set", kind |-> KindsFDLX] : x \in {"absent", "sticky"}}
+  /\ cfg \in {[mounted |-> {"R", "V1"}, top |-> TopOn("V1", x), altfile |-> {}, xdg |-> "set", home |-> "set", hlink |-> "none", kind |-> KindsFDLX] : x \in {"absent", "sticky"}}
   /\ dirs = BaseDirs /\ live = {}
   /\ tex = {"home", "t2:V1"}
   /\ \E und \in BOOLEAN :
@@ -247,7 +265,7 @@ LiveLinks == {[r |-> "R", d |-> "d", n |-> "a", o |-> 1], [r |-> "V1", d |-> "to
               [r |-> "V1", d |-> "d", n |-> "b", o |-> 3], [r |-> "V2", d |-> "d", n |-> "a", o |-> 5],
               [r |-> "R", d |-> "top", n |-> "b", o |-> 7], [r |-> "H", d |-> "d", n |-> "b", o |-> 9]}
 Init_Links ==
-  /\ cfg \in {[mounted |-> m, top |-> TopOn("V1", x), altfile |-> {}, xdg |-> xd, home |-> "set", kind |-> KindsLinks] :
+  /\ cfg \in {[mounted |-> m, top |-> TopOn("V1", x), altfile |-> {}, xdg |-> xd, home |-> "set", hlink |-> "none", kind |-> KindsLinks] :
                  m \in Layouts, x \in {"absent", "sticky"}, xd \in {"set", "unset"}}
   /\ dirs = BaseDirs /\ live = LiveLinks /\ EmptyTrash
   /\ clock = 1 /\ purged = {} /\ out = [cmd |-> "init"]
@@ -261,7 +279,7 @@ Next_PutLink ==
 LiveArgsL == {[r |-> "R", d |-> "d", n |-> "a", o |-> 1], [r |-> "V1", d |-> "top", n |-> "a", o |-> 2],
               [r |-> "V1", d |-> "d", n |-> "b", o |-> 3], [r |-> "R", d |-> "top", n |-> "b", o |-> 4]}
 Init_PutList ==
-  /\ cfg \in {[mounted |-> {"R", "V1"}, top |-> TopOn("V1", x), altfile |-> af, xdg |-> "set", home |-> "set", kind |-> KindsFDLX] :
+  /\ cfg \in {[mounted |-> {"R", "V1"}, top |-> TopOn("V1", x), altfile |-> af, xdg |-> "set", home |-> "set", hlink |-> "none", kind |-> KindsFDLX] :
                   x \in {"absent", "sticky", "file"}, af \in {{}, {"V1"}}}
   /\ dirs = BaseDirs /\ live = LiveArgsL /\ EmptyTrash
   /\ clock = 1 /\ purged = {} /\ out = [cmd |-> "init"]
